@@ -21,3 +21,12 @@ func VerifResetGlobals() {
 	delegateTextMapPropagatorOnce = sync.Once{}
 	delegateMeterOnce = sync.Once{}
 }
+
+// VerifSetAutoInstrumentation sets the flag an attached auto-instrumentation
+// agent flips from outside the process (autoInstEnabled): while it is true,
+// tracers that have no delegate yet hand out auto-instrumentation SDK spans.
+// It exists only under the "verif" build tag; VerifResetGlobals does not
+// touch it.
+func VerifSetAutoInstrumentation(on bool) {
+	*autoInstEnabled = on
+}
